@@ -105,6 +105,7 @@ type Recorder struct {
 	known       map[string]int64
 	notes       map[string]string
 	exhaustive  []string
+	prev        map[string]seqEntry
 }
 
 func NewRecorder(prop string) *Recorder {
@@ -526,4 +527,77 @@ func Guarded(kind, key string, c func() any, f func()) (panicked string) {
 	}()
 	f()
 	return ""
+}
+
+// ---------------------------------------------------------------- call-sequence independence
+
+type seqEntry struct {
+	c      any
+	oracle func() *Violation
+}
+
+// SeqCase is the replay form of a call-sequence violation.
+type SeqCase struct {
+	Kind  string `json:"kind"`
+	First any    `json:"first"`
+	Then  any    `json:"then"`
+}
+
+// ReportSeq evaluates one case like Report and, in addition, re-evaluates the
+// PREVIOUS case of the same kind afterwards: the library's functions are pure
+// with respect to their arguments, so a case that held before must still hold
+// after an unrelated call. A failure here means state is carried between calls
+// (a cache keyed too coarsely, a shared response object, a memoised result).
+// The violation's case holds both cases; replay kind "sequence" re-runs
+// first, then, first through the registry.
+func (r *Recorder) ReportSeq(t TB, kind string, c any, oracle func() *Violation) {
+	t.Helper()
+	if v := oracle(); v != nil {
+		r.Report(t, kind, v)
+		return
+	}
+	r.mu.Lock()
+	if r.prev == nil {
+		r.prev = map[string]seqEntry{}
+	}
+	p, ok := r.prev[kind]
+	r.prev[kind] = seqEntry{c, oracle}
+	r.mu.Unlock()
+	if !ok {
+		return
+	}
+	r.Eval()
+	if pv := p.oracle(); pv != nil {
+		r.Report(t, "sequence", &Violation{Key: "state-carried-between-calls/" + pv.Key, Case: SeqCase{Kind: kind, First: p.c, Then: c},
+			Msg: "a case that held when evaluated first no longer holds after another call of the same API (state is carried between calls):\n" + pv.Msg})
+	}
+}
+
+// SequenceReplayer returns the registry entry for kind "sequence".
+func SequenceReplayer(reg Registry) func(raw json.RawMessage) *Violation {
+	return func(raw json.RawMessage) *Violation {
+		var sc struct {
+			Kind  string          `json:"kind"`
+			First json.RawMessage `json:"first"`
+			Then  json.RawMessage `json:"then"`
+		}
+		if err := json.Unmarshal(raw, &sc); err != nil {
+			return Violf("", nil, "bad sequence case: %v", err)
+		}
+		f, ok := reg[sc.Kind]
+		if !ok {
+			return Violf("", nil, "unknown kind %q in sequence case", sc.Kind)
+		}
+		if v := f(sc.First); v != nil {
+			return v
+		}
+		if v := f(sc.Then); v != nil {
+			return v
+		}
+		if v := f(sc.First); v != nil {
+			v.Key = "state-carried-between-calls/" + v.Key
+			return v
+		}
+		return nil
+	}
 }
